@@ -413,6 +413,13 @@ class Evaluator:
 
     def assign(self, target, value_node, p):
         """returns list of paths (forks on IfExp / Choice)."""
+        if isinstance(target, (ast.Tuple, ast.List)) and isinstance(value_node, (ast.Tuple, ast.List)) \
+                and len(target.elts) == len(value_node.elts) and not any(isinstance(x, ast.Starred) for x in target.elts + value_node.elts):
+            # a, b = x, y : element-wise (each element may fork on a conditional expression)
+            paths = [p]
+            for t, v in zip(target.elts, value_node.elts):
+                paths = [q2 for q in paths for q2 in self.assign(t, v, q)]
+            return paths
         v = self.expr(value_node, p)
         outs = []
         if isinstance(v, IfVal):
